@@ -104,7 +104,7 @@ PROPS = {
     'C12': {
         'correspondence': {'kind': 'pipe', 'profiles': [prof('pipe', (40, 5), (400, 10)), prof('progs:pipe_extra.progs', (0, 4), (0, 30)), prof('progs:pipe_yield.progs', (0, 8), (0, 60)), prof('progs:pipe_lastowner.progs', (0, 8), (0, 60))]},
         'coq': ['theories/Pipe/PropsC12.vo', 'theories/Inst/C12_now.vo', 'theories/Inst/Fut_now.vo'],
-        'profiles': [prof('pipe', (80, 20), (1500, 60), extra=['--max-steps', '30000']), prof('progs:pipe_yield.progs', (0, 60), (0, 1500), extra=['--max-steps', '30000'])],
+        'profiles': [prof('pipe', (80, 20), (1500, 60), extra=['--max-steps', '30000']), prof('progs:pipe_yield.progs', (0, 60), (0, 1500), extra=['--max-steps', '30000']), prof('progs:pipe_gated.progs', (0, 60), (0, 1500), extra=['--max-steps', '30000'])],
         'monitors': ['C12', 'C01', 'C05'], 'liveness': True, 'panics': True,
         'trusted_base': ['Pipe model (coq/theories/Pipe/Model.v): hand-written, the object abstracted as one-at-a-time FIFO execution (justified by C01/C02), tied by translator facts, by the replay of logged executions on the extracted model (driver/pipein, driver/pipe) and by the run-time oracles'],
         'assumptions': ['the Desync object is abstracted as ObjExec; the processing of an item may suspend once in the middle (init_slow); depth 0 is excluded (it wedges the pipe by design of the code: nothing is read while pending.len() >= 0)'],
